@@ -6,9 +6,9 @@
    Model/Reconcile.v (proxy.Manager / visitor.Manager UpdateAll and the manager operations).
    Histories are operation lists; every statement quantifies over all of them. *)
 From Coq Require Import List ZArith Bool.
-From FRP Require Import Model.Health Model.Wrapper Model.Reconcile Model.HealthGate Model.ClientServer Model.ClientSvc
+From FRP Require Import Model.Health Model.Wrapper Model.Reconcile Model.HealthGate Model.ClientServer Model.ClientSvc Model.HttpRoutes
   Proofs.HealthProofs Proofs.WrapperProofs Proofs.ReconcileProofs Proofs.ReconcileInv
-  Proofs.VisitorMgrProofs Proofs.HealthGateProofs Proofs.ClientSvcProofs Proofs.C19ReloadCheck.
+  Proofs.VisitorMgrProofs Proofs.HealthGateProofs Proofs.ClientSvcProofs Proofs.C19ReloadCheck Proofs.HttpRoutesProofs gen.GenC19Routes.
 Import ListNotations.
 Open Scope Z_scope.
 
@@ -265,6 +265,33 @@ Example C19_ex_reload_while_disconnected :
   | _ => False
   end.
 Proof. repeat split. Qed.
+
+(* ================= closed at the server: http routes ================= *)
+
+(* "entries that changed are stopped and closed at the server ... new entries are started ... registered
+   again after the next success", for http proxies with any number of custom domains, an optional
+   subdomain and any number of locations: Run on a route table that holds none of the proxy's routes
+   succeeds and adds exactly domains x locations; Close gives back exactly the old table; so the next
+   registration of the same or of a changed entry (any configuration whose routes are free in the old
+   table) succeeds again.  Holds for close functions that unregister the route of their own iteration
+   (per-iteration copy) — the reflective theorem below checks that on today's source. *)
+Theorem C19_http_close_releases_every_route : forall t c,
+  NoDup (hr_expand c) -> (forall r, In r (hr_expand c) -> ~ In r t) ->
+  exists t', hr_run true t c = (Some t', t') /\
+    (forall x, In x t' <-> In x t \/ In x (hr_expand c)) /\
+    (forall x, In x (hr_close true t' c) <-> In x t) /\
+    (forall c2, NoDup (hr_expand c2) -> (forall r, In r (hr_expand c2) -> ~ In r t) ->
+       exists t2, hr_run true (hr_close true t' c) c2 = (Some t2, t2)).
+Proof. exact hr_run_close_restores. Qed.
+Print Assumptions C19_http_close_releases_every_route.
+
+(* server/proxy/http.go HTTPProxy.Run, as read by the translator (gen/GenC19Routes.v): there are close
+   functions, and every one hands UnRegister a variable declared inside the innermost loop body *)
+Theorem C19_http_close_funcs_capture_own_route :
+  (C19Routes_translated && (1 <=? Z.of_nat (List.length c19_http_close_funcs)) &&
+   forallb (fun f : String.string * String.string * bool => snd f) c19_http_close_funcs) = true.
+Proof. vm_compute. reflexivity. Qed.
+Print Assumptions C19_http_close_funcs_capture_own_route.
 
 (* ================= asynchronous replies: convergence refuted (F-C19c) ================= *)
 
